@@ -18,6 +18,10 @@
 #include <time.h>
 #include <unistd.h>
 #include <algorithm>
+#include <atomic>
+#include <linux/futex.h>
+#include <limits.h>
+#include <pthread.h>
 
 struct sd_bus;
 struct sd_bus_message;
@@ -51,6 +55,7 @@ struct dirent64* __real_readdir64(DIR*);
 int __real_closedir(DIR*);
 int __real_faccessat(int, const char*, int, int);
 long __real_syscall(long, ...);
+int __real_pthread_kill(pthread_t, int);
 }
 
 namespace sim {
@@ -319,8 +324,46 @@ static int doOpen(int dirfd, const char* cpath, int flags, mode_t mode,
   return fd;
 }
 
+// ---- blocking writes to memory.high (helper threads only) -----------------
+// 0 idle, 1 a helper thread is blocked in the write, 2 it has been signalled,
+// 3 released (the main thread is waiting for it again)
+static std::atomic<int> g_slowWrite{0};
+static std::atomic<long> g_futexWaitAddr{0};
+static int g_helperMemhighWrites = 0;
+
+static bool slowWriteDue(const std::string& name) {
+  if (name != "memory.high" && name != "memory.high.tmp")
+    return false;
+  if ((long)__real_syscall(SYS_gettid) == (long)getpid())
+    return false; // the main thread would block for ever
+  if (sched::active() || !R.plan.isMember("slow_write"))
+    return false;
+  int n = g_helperMemhighWrites++;
+  for (const auto& k : R.plan["slow_write"])
+    if (k.asInt() == n)
+      return true;
+  return false;
+}
+
+static void slowWriteBlock() {
+  fired("slow-write");
+  record("edit", "", "write blocks in the kernel");
+  g_slowWrite.store(1);
+  struct timespec ts = {0, 50000};
+  while (g_slowWrite.load() != 3) {
+    // a main thread already asleep in its (untimed) wait has to look again
+    if (long addr = g_futexWaitAddr.load()) {
+      // (libstdc++ waits on a shared futex; wake either kind)
+      __real_syscall(SYS_futex, addr, FUTEX_WAKE, INT_MAX, 0, 0, 0);
+      __real_syscall(SYS_futex, addr, FUTEX_WAKE_PRIVATE, INT_MAX, 0, 0, 0);
+    }
+    __real_nanosleep(&ts, nullptr);
+  }
+  g_slowWrite.store(0);
+}
+
 // kernel semantics of a write to a cgroup control file
-static ssize_t controlWrite(const FdInfo& fi, const std::string& val) {
+static ssize_t controlWriteInner(const FdInfo& fi, const std::string& val) {
   Cg* c = W.byInc(fi.inc);
   std::string v = val;
   while (!v.empty() && (v.back() == '\n' || v.back() == ' '))
@@ -396,6 +439,18 @@ static ssize_t controlWrite(const FdInfo& fi, const std::string& val) {
     }
   }
   return (ssize_t)val.size();
+}
+
+static ssize_t controlWrite(const FdInfo& fi, const std::string& val) {
+  ssize_t r = controlWriteInner(fi, val);
+  if (r >= 0 && slowWriteDue(fi.name)) {
+    // the kernel has taken the value and now blocks the writer in reclaim
+    // until a signal interrupts it (what Senpai's timed_invoke is for)
+    // (the interrupted write reports success: the value is in place, and a
+    // second write of it would be one more poke to the oracle)
+    slowWriteBlock();
+  }
+  return r;
 }
 
 } // namespace sim
@@ -637,6 +692,14 @@ ssize_t __wrap_fgetxattr(int fd, const char* name, void* value, size_t size) {
 }
 
 // ------------------------------------------------------------ raw syscalls
+int __wrap_pthread_kill(pthread_t t, int sig) {
+  if (sig == SIGUSR1 && g_slowWrite.load() == 1) {
+    g_slowWrite.store(2); // delivered when the sender waits again
+    return 0;
+  }
+  return __real_pthread_kill(t, sig);
+}
+
 long __wrap_syscall(long nr, ...) {
   TsanIgnore ig;
   va_list ap;
@@ -675,6 +738,32 @@ long __wrap_syscall(long nr, ...) {
       }
       return 0;
     }
+  }
+  if (nr == SYS_futex && R.in_daemon && !sched::active() &&
+      ((int)a[1] & FUTEX_CMD_MASK) == FUTEX_WAIT_BITSET && a[3] != 0 &&
+      (long)__real_syscall(SYS_gettid) == (long)getpid()) {
+    // the main thread waits, with a deadline on the virtual clock, for a
+    // helper thread (std::future::wait_for in Senpai's timed_invoke). The
+    // helper finishes at once unless it is stuck in a blocking write: only
+    // then does the wait time out, and virtual time moves to the deadline.
+    g_futexWaitAddr.store(a[0]);
+    int st = g_slowWrite.load();
+    if (st == 1) {
+      g_futexWaitAddr.store(0);
+      const struct timespec* ts = (const struct timespec*)a[3];
+      int64_t abs = (int64_t)ts->tv_sec * 1000000000LL + ts->tv_nsec;
+      if (abs > R.now_ns)
+        R.now_ns = abs;
+      errno = ETIMEDOUT;
+      return -1;
+    }
+    if (st == 2)
+      g_slowWrite.store(3);
+    long r = __real_syscall(nr, a[0], a[1], a[2], 0L, a[4], a[5]);
+    int e = errno;
+    g_futexWaitAddr.store(0);
+    errno = e;
+    return r;
   }
   return __real_syscall(nr, a[0], a[1], a[2], a[3], a[4], a[5]);
 }
